@@ -1,5 +1,8 @@
 """C11 cases: radix output and round trips."""
 from .common import *
+from . import widthsweep as _ws
+
+HARNESS_BINS_THOROUGH = ["widths"]
 HARNESS_BIN = "c10"
 
 
@@ -40,7 +43,7 @@ def out_value(rng, w, n, r):
     return value(rng, w, n)
 
 
-def gen(rng, tier):
+def _gen_main(rng, tier):
     reps = 4 if tier == "thorough" else 1
     for cfg in cfgs(tier):
         w, n = wn(cfg)
@@ -63,3 +66,13 @@ def gen(rng, tier):
                 yield f"to_str_radix {s}{cfg} {r} 5", "bad-radix"
                 yield f"to_radix_be {s}{cfg} {r} 5", "bad-radix"
                 yield f"to_radix_le {s}{cfg} {r} 5", "bad-radix"
+
+
+def ROUTE(line):
+    return _ws.route(line, "c10")
+
+
+def gen(rng, tier):
+    yield from _gen_main(rng, tier)
+    if tier == "thorough":
+        yield from _ws.print_(rng)
